@@ -290,6 +290,10 @@ def gen_page(rng, *, nrow=None, paper=None, placements=True, borders=True, col_w
             kw["margin"] = [round(rng.uniform(0.3, 1.6), rng.choice([1, 2, 3])) if rng.random() < 0.7
                             else half_twip(0.3, 1.6) for _ in range(6)]
             q = rng.random()
+            if rng.random() < 0.12:
+                # margins of zero (borderless output): still stated, RTF's own defaults are not zero
+                for i in rng.sample(range(6), rng.randint(1, 6)):
+                    kw["margin"][i] = 0
             if q < 0.15:
                 # the four page margins equal, header / footer distance different
                 kw["margin"] = [kw["margin"][0]] * 4 + kw["margin"][4:]
@@ -346,7 +350,7 @@ def scalar_attr(rng, name, half_points=False, color_pool=None):
                 "border_first", "border_last"):
         return rng.choice(BORDERS)
     if name == "border_width":
-        return rng.choice([15, 5, 30, 45, rng.randint(1, 75)])
+        return rng.choice([15, 5, 30, 45, rng.randint(1, 75), rng.choice([76, 100, 120, 200, 255])])
     if name == "cell_height":
         return rng.choice([0.15, 0.2, 0.3, 0.5, round(rng.uniform(0.05, 1.0), 2)])
     if name == "cell_justification":
@@ -414,7 +418,7 @@ def gen_text_comp(rng, tag, *, lines=None, rich=0.3, half_points=False, color_po
 
 def gen_tbl_text_comp(rng, tag, *, as_table=None, lines=None, rich=0.3, half_points=False,
                       color_pool=None, figure=False):
-    n = lines or rng.choice([1, 1, 2])
+    n = lines or rng.choice([1, 1, 2, 3])
     kw: dict = {"text": [f"{tag}{k}" + (" " + words(rng, rng.randint(0, 3)) if rng.random() < 0.5 else "")
                          for k in range(n)]}
     if n == 1 and rng.random() < 0.5:
@@ -428,6 +432,12 @@ def gen_tbl_text_comp(rng, tag, *, as_table=None, lines=None, rich=0.3, half_poi
     for name in TEXT_ATTRS + ["border_left", "border_right", "border_top", "border_bottom"]:
         if rng.random() < rich * 0.4:
             kw[name] = scalar_attr(rng, name, half_points=half_points, color_pool=color_pool)
+    if n >= 2 and rng.random() < 0.35:
+        # one value per text line, as a column vector (what a tuple becomes): a table-rendered footnote / source is
+        # still ONE row
+        for name in rng.sample(["text_font_size", "text_format", "text_font", "text_color", "text_justification"],
+                               rng.randint(1, 3)):
+            kw[name] = [[scalar_attr(rng, name, half_points=half_points, color_pool=color_pool)] for _ in range(n)]
     return kw
 
 
@@ -465,6 +475,39 @@ def gen_colheader(rng, ndisp, mode=None, base=0, rich=0.2, half_points=False, co
     else:
         raise KeyError(mode)
     return rows
+
+
+NAME_DECOR = [" (%)", ", n", " [mg/dL]", " " + chr(0x2126), " " + chr(0x212A) + "elvin", " e" + chr(0x301), " " + chr(0xB5) + "g",
+              " Gr" + chr(0xF6) + chr(0xDF) + "e", " " + chr(0x5E74) + chr(0x9F62), "  ", " x", ".1", " n, %", "-total", " #"]
+
+
+def decorate_names(rng, spec, p=0.5):
+    """column names are not always bare identifiers: decorate some (the tag stays in front), and let one be the
+    lower-case sibling of another; every reference to a renamed column follows"""
+    cols = spec["df"]["cols"]
+    ren = {}
+    for c in cols:
+        if rng.random() < p:
+            ren[c["name"]] = c["name"] + rng.choice(NAME_DECOR)
+    plain = [c["name"] for c in cols if c["name"] not in ren]
+    if len(cols) >= 2 and plain and rng.random() < 0.3:
+        a = rng.choice(plain)
+        b = rng.choice([c["name"] for c in cols if c["name"] != a])
+        m = TAGNUM.fullmatch(a)
+        if m:
+            # "N3" and "n3": equal after case folding, still two columns
+            ren[b] = a.lower()
+    for c in cols:
+        c["name"] = ren.get(c["name"], c["name"])
+    for holder in (spec.get("body", {}), spec.get("_meta", {})):
+        for k in ("page_by", "subline_by", "group_by"):
+            if isinstance(holder.get(k), list):
+                holder[k] = [ren.get(x, x) for x in holder[k]]
+    return ren
+
+
+import re as _re2
+TAGNUM = _re2.compile(r"N\d+")
 
 
 def displayed_count(df_ncols, body):
@@ -590,6 +633,8 @@ def gen_table_spec(rng, *, nrows=(0, 30), ncols=(1, 6), strategy=None, header=No
         spec["footnote"] = gen_tbl_text_comp(rng, "FN", rich=rich, half_points=half_points, color_pool=color_pool)
     if opt(source, 0.5):
         spec["source"] = gen_tbl_text_comp(rng, "SR", rich=rich, half_points=half_points, color_pool=color_pool)
+    if rng.random() < 0.15:
+        decorate_names(rng, spec)
     return spec
 
 
